@@ -375,7 +375,7 @@ Definition print_arg_val := print_arg_val_f 6.
 (* a value of the top-level list: blank = a separator has been written in front *)
 Definition print_arg_val_top (o : popts) (args : list av) (cols : Z) (prev : option av) (blank : bool) : pres :=
   match args with
-  | VArr _ _ :: _ => print_array (print_arg_val_f 5) o args cols blank
+  | VArr _ _ :: _ => print_array print_arg_val o args cols blank
   | _ => print_arg_val o args cols prev
   end.
 
